@@ -1,7 +1,7 @@
 """C19 - a thread pool handles each client's Messages once, in order, one at a time.
 
  1. TLC model-checks spec/ThreadPool/TPImpl.tla (system/ThreadPool.cpp as coded, one action per _poolLock critical section or
-    per step of a pool thread outside the lock): OneAtATime, ThreadLimit, InOrder, Conservation, FlagExact, UnregisterWaits and,
+    per step of a pool thread outside the lock): OneAtATime, ThreadLimit, InOrder, Conservation, FlagExact, UnregisterWaits, NoHandlerAfterUnregister and,
     under weak fairness of the library's steps, UnregisterReturns, ShutdownTerminates, AllHandled.
  2. code -> spec: seeded random workloads on a real ThreadPool under the controlled scheduler (every hooked operation is a
     pre-emption point): PoolAbs monitor + deadlock detector; the recorded traces of a subset (critical-section events emitted by
@@ -11,7 +11,7 @@ import concurrent.futures as cf, os, re
 import vlib
 
 ACTIONS = ["Submit", "Receive", "Handle", "Finish", "UnregBegin", "UnregWake", "UnregEnd", "ShutFlag", "SwapAvail", "SwapActive", "ShutStop", "ShutFinal"]
-INVS = ["OneAtATime", "ThreadLimit", "InOrder", "Conservation", "FlagExact", "UnregisterWaits"]
+INVS = ["OneAtATime", "ThreadLimit", "InOrder", "Conservation", "FlagExact", "UnregisterWaits", "NoHandlerAfterUnregister"]
 
 
 def cfg(name, spec, clients, maxthreads, nmsgs, shutdown, invs=None, props=None):
